@@ -255,6 +255,31 @@ static std::string obsGet(const Obs& o, const std::string& k)
    return "";
 }
 
+// all numbers printed as hex(value) in the observation strings of the groups sol / ratsol agree within a relative tolerance
+static bool numbersClose(const Obs& a, const Obs& b, double rel)
+{
+   if(a.size() != b.size()) return false;
+   for(size_t k = 0; k < a.size(); k++)
+   {
+      if(a[k].first != b[k].first) return false;
+      if(a[k].first.compare(0, 4, "sol.") != 0) continue;
+      const std::string& x = a[k].second, & y = b[k].second;
+      size_t i = 0, j = 0;
+      while(true)
+      {
+         i = x.find('(', i);
+         j = y.find('(', j);
+         if((i == std::string::npos) != (j == std::string::npos)) return false;
+         if(i == std::string::npos) break;
+         double u = atof(x.c_str() + i + 1), w = atof(y.c_str() + j + 1);
+         if(!(std::fabs(u - w) <= rel * (1 + std::fabs(u) + std::fabs(w)))) return false;
+         i++;
+         j++;
+      }
+   }
+   return true;
+}
+
 // ------------------------------------------------------------------ objects in raw memory with a chosen fill pattern
 static const unsigned char FILLS[] = {0x00, 0xA5, 0xFF, 0x01};
 static SoPlex* makeAt(int fill, const SoPlex* src)
@@ -1022,6 +1047,7 @@ static Verdict runDet(const Case& c)
       return v;
    }
    std::string ra = doSolve(*A);
+   int typeAfter1 = SoPlexVerifAccess::solverType(*A);
    Obs oa = observe(*A);
    heapGarbage(gr ? (int) gr->i(0) : 0, gr ? (int) gr->i(1) : 5, keep);
    SoPlex* B = makeAt(fillB, nullptr);
@@ -1056,6 +1082,7 @@ static Verdict runDet(const Case& c)
       A->clearBasis();
       bool sc2 = SoPlexVerifAccess::isRealLPScaled(*A);
       std::string ra2 = doSolve(*A);
+      int typeAfter2 = SoPlexVerifAccess::solverType(*A);
       Obs oa2 = observe(*A);
       if(!skip)
       {
@@ -1066,7 +1093,15 @@ static Verdict runDet(const Case& c)
          Obs oa3 = observe(*A);
          e.count("det.second_resolve_after_clearBasis");
          if(A->numIterations() >= 2) e.count("det.second_resolve_after_clearBasis.iters2+");
-         if(knownKey(K_FRESH) && sc2 != sc3)
+         if(knownKey("algorithm-type-persists") && typeAfter1 != typeAfter2)
+         {
+            // known finding C17/algorithm-type-persists: the solver keeps the algorithm type (ENTER/LEAVE) it ended the
+            // previous solve with. The first solve ended in another type than the second one, so exactly one of the two
+            // re-solves has to switch back first (setType -> unInit) and the two take different initialisation paths
+            // (seen: 6 vs 17 iterations alternating from solve to solve)
+            e.count("excluded_known.algorithm-type-persists");
+         }
+         else if(knownKey(K_FRESH) && sc2 != sc3)
          {
             // the second solve removed the persistent scaling (violations in the original space): the third solve
             // scales again and thereby starts like the first solve of a fresh object (same root cause)
@@ -1417,7 +1452,12 @@ static Verdict runCopy(const Case& c)
          e.count("final.op." + r.s(0));
          if(isSolveOp(r, 0)) countStatus(std::string("final.solve.") + yn, xy);
          if(trace()) fprintf(stderr, "final %d %s on %s -> %s | twin %s\n", fstep, r.s(0).c_str(), yn, xy.substr(0, 200).c_str(), xt.substr(0, 200).c_str());
-         if(xy != xt)
+         // The SOURCE must not be affected by having been copied: it continues bit for bit like the never-copied twin.
+         // For the COPY the statement claims equality at the time of the copy and independence afterwards, not that its
+         // internal pivoting state (factorisation, pricing norms) is the source's: its continuation is compared with the
+         // twin in LP, parameters, status and optimal value only (a different optimal basis / last bits are legitimate).
+         bool strictTwin = std::string(yn) != "copy";
+         if(strictTwin && xy != xt)
          {
             v.fail(std::string("the ") + yn + " does not continue like a never-copied twin: operation " + r.s(0) + " gives " + xy.substr(0, 300) + " but the twin " + xt.substr(0, 300));
             cleanup();
@@ -1426,7 +1466,17 @@ static Verdict runCopy(const Case& c)
          if(isSolveOp(r, 0) || r.s(0) == "binv")
          {
             Obs oy = observe(**Y), ott = observe(*T);
-            std::string dd = firstDiff(oy, ott, twinGroups, yn, "twin");
+            std::string dd = firstDiff(oy, ott, strictTwin ? twinGroups : (tolShared ? "lp par seed ratlp" : "lp par tol seed ratlp"), yn, "twin");
+            if(dd.empty() && !strictTwin)
+            {
+               if(obsGet(oy, "status.status") != obsGet(ott, "status.status")) dd = "status.status: copy = " + obsGet(oy, "status.status") + " | twin = " + obsGet(ott, "status.status");
+               else if(obsGet(oy, "status.status") == "OPTIMAL")
+               {
+                  double a = (**Y).objValueReal(), b = T->objValueReal();
+                  if(!(std::fabs(a - b) <= 1e-6 * (1 + std::fabs(a) + std::fabs(b)))) dd = "optimal value: copy = " + hx(a) + " | twin = " + hx(b);
+               }
+               if(dd.empty() && oy != ott) e.count("copy.continuation_differs_from_twin_in_unclaimed_detail");
+            }
             if(!dd.empty())
             {
                v.fail(std::string("the ") + yn + " does not continue like a never-copied twin: after " + r.s(0) + " they differ in " + dd);
